@@ -2,6 +2,7 @@ import Rbp.Spec.PushRules
 import Rbp.Proofs.Tokens
 import Rbp.Generated.Consts
 import Rbp.Proofs.Base58Check
+import Rbp.Proofs.TokeniseSound
 /-!
 # C06 — fork coins: scripts are tokenised by Bitcoin push rules and typed by template
 Property theorems only; helper lemmas live in Rbp/Proofs and next to the definitions they are about.
@@ -14,6 +15,28 @@ open S SM
 theorem tokenise_roundtrip (toks : List T.Tok) (h : ∀ t ∈ toks, t.WF) :
     T.tokenise (toks.flatMap T.Tok.enc) = some toks :=
   T.tokenise_enc toks h
+
+/-- and conversely the tokeniser only returns token lists that re-encode to the script, every token well-formed: so
+    `tokenise s = some toks ↔ s` is the encoding of the well-formed list `toks`, and `tokenise s = none` — the script is
+    unrecognised — exactly when `s` is the encoding of NO well-formed token list, i.e. some push runs past the end -/
+theorem tokenise_sound (s : Bytes) (toks : List T.Tok) (h : T.tokenise s = some toks) :
+    s = toks.flatMap T.Tok.enc ∧ ∀ t ∈ toks, t.WF :=
+  T.tokenise_sound s.length s toks rfl h
+
+theorem tokenise_iff (s : Bytes) (toks : List T.Tok) :
+    T.tokenise s = some toks ↔ (s = toks.flatMap T.Tok.enc ∧ ∀ t ∈ toks, t.WF) :=
+  ⟨tokenise_sound s toks, fun ⟨hs, hw⟩ => by rw [hs]; exact T.tokenise_enc toks hw⟩
+
+theorem unrecognised_iff_no_encoding (s : Bytes) :
+    T.tokenise s = none ↔ ¬ ∃ toks : List T.Tok, s = toks.flatMap T.Tok.enc ∧ ∀ t ∈ toks, t.WF := by
+  constructor
+  · rintro h ⟨toks, hs, hw⟩
+    rw [hs, T.tokenise_enc toks hw] at h
+    cases h
+  · intro h
+    cases ht : T.tokenise s with
+    | none => rfl
+    | some toks => exact absurd ⟨toks, tokenise_sound s toks ht⟩ h
 
 /-- non-vacuity: OP_RETURN PUSHDATA1 "abcde" is a well-formed token list -/
 example : ∀ t ∈ [T.Tok.op 0x6a, T.Tok.push .pd1 [0x61, 0x62, 0x63, 0x64, 0x65]], t.WF := by
